@@ -191,6 +191,12 @@ fn run_entry<C: Context<NumericTypes = DefaultNumericTypes> + ContextWithMutable
                 child.children_mut().clear();
                 match child_kind {
                     "Const" | "RootNode" => child = call,
+                    "Literal" => {
+                        // an identifier-free child: a constant, or (mask bit set) the failing constant expression 1/0
+                        let failing = mask.as_bytes().get(i) == Some(&b'1');
+                        let built = build_operator_tree::<DefaultNumericTypes>(&(if failing { "1/0".to_string() } else { format!("{}", i + 1) })).unwrap();
+                        child = built.children()[0].clone();
+                    },
                     "VariableIdentifierWrite" => {
                         *child.operator_mut() = Operator::VariableIdentifierWrite { identifier: format!("v{}", i) };
                     },
